@@ -39,6 +39,32 @@ class read_long:
     uses_locals = ["b", "n", "shift"]
 
 
+@target(M, "BinaryDecoder.read_long", behavior="blockstart")
+class read_long_blockstart:
+    """at the start of a container block: end of file is reported by EOFError (that is how the block
+    iterators stop), otherwise a complete long is read"""
+    types = dict(self="BinaryDecoder")
+    ghosts = dict(z="int", rest="bytes")
+    requires = lambda self: z >= 0 and (self.fo.rem == b"" or self.fo.rem == S.varint(z) + rest)
+    modifies = ["self.fo"]
+    returns = "int"
+    raises = [R("EOFError", when=lambda self: self.fo.rem == b"",
+                ensures=lambda self: (self.fo.data == old.self.fo.data and self.fo.rem == b""
+                                      and self.fo.pos == old.self.fo.pos))]
+    ensures = lambda self, result: (
+        result == S.unzigzag(z) and self.fo.rem == rest
+        and self.fo.pos == old.self.fo.pos + len(S.varint(z))
+        and self.fo.data == old.self.fo.data and self.fo.eof_hit == old.self.fo.eof_hit)
+    loops = {0: lambda self, b, n, shift: (
+        shift >= 7 and 0 <= b <= 255 and 0 <= n < S.pow2(shift)
+        and z == n + S.pow2(shift) * S.shr7(z, shift) and S.shr7(z, shift) >= 0
+        and (b >= 128) == (S.shr7(z, shift) >= 1)
+        and self.fo.rem == (S.varint(S.shr7(z, shift)) if S.shr7(z, shift) >= 1 else b"") + rest
+        and self.fo.pos + len(self.fo.rem) == old.self.fo.pos + len(old.self.fo.rem)
+        and self.fo.data == old.self.fo.data and self.fo.eof_hit == old.self.fo.eof_hit)}
+    uses_locals = ["b", "n", "shift"]
+
+
 @target(M, "BinaryDecoder.read_long", behavior="short")
 class read_long_short:
     """no assumption on the input: a short read makes the method raise"""
